@@ -213,9 +213,22 @@ macro_rules! battery_impl {
                     }
                 }
             }
+            // get_node_weight: None for an id that is not live (never used, removed, beyond the matrix)
+            let gn = guarded(|| g.get_node_weight(ni(a)).cloned());
+            if gn != Ok(m.nodes.get(&a).cloned()) {
+                return Err(err("get_node_weight", "differs from the model (None for an id that is not live)", format!("{} got {:?} want {:?}", a, gn, m.nodes.get(&a))));
+            }
             if live_a {
-                if guarded(|| *g.node_weight(ni(a))) != Ok(m.nodes[&a]) {
-                    return Err(err("node_weight", "differs from the model", format!("{}", a)));
+                if guarded(|| *g.node_weight(ni(a))) != Ok(m.nodes[&a]) || guarded(|| g[ni(a)]) != Ok(m.nodes[&a]) {
+                    return Err(err("node_weight / Index<NodeIndex>", "differs from the model", format!("{}", a)));
+                }
+                for (&(x, y), &w) in m.edges.iter().filter(|(k, _)| k.0 == a || k.1 == a) {
+                    for (p, q) in if m.directed { vec![(x, y)] } else { vec![(x, y), (y, x)] } {
+                        let iw = guarded(|| g[(ni(p), ni(q))].un());
+                        if iw != Ok(w) {
+                            return Err(err("Index<(NodeIndex, NodeIndex)>", "differs from the model (latest weight; an undirected edge from both endpoints)", format!("{} {} got {:?} want {}", p, q, iw, w)));
+                        }
+                    }
                 }
                 let want_out = sorted(m.adj(a, true));
                 let nb: Vec<usize> = g.neighbors(ni(a)).map(|x| x.index()).collect();
@@ -251,6 +264,12 @@ impl<E: W, Null: Nullable<Wrapped = E> + Send + Sync + 'static, Ix: IndexType + 
                         return Err(err("neighbors_directed", "differs from the model", format!("node {} {:?} got {:?} want {:?}", a, dir, nb, want)));
                     }
                     let ed: Vec<(usize, usize, u8)> = s.g.edges_directed(ni(a), dir).map(|(x, y, w)| (x.index(), y.index(), w.un())).collect();
+                    // the visit-trait routes
+                    let ed_t: Vec<(usize, usize, u8)> = petgraph::visit::IntoEdgesDirected::edges_directed(&s.g, ni(a), dir).map(|(x, y, w)| (x.index(), y.index(), w.un())).collect();
+                    let nb_t: Vec<usize> = petgraph::visit::IntoNeighborsDirected::neighbors_directed(&s.g, ni(a), dir).map(|x| x.index()).collect();
+                    if ed_t != ed || nb_t != nb {
+                        return Err(err("IntoEdgesDirected / IntoNeighborsDirected", "differ from the inherent methods", format!("node {} {:?}", a, dir)));
+                    }
                     let want_ed: Vec<(usize, usize, u8)> = want.iter().map(|&(o, w)| if out { (a, o, w) } else { (o, a, w) }).collect();
                     if sorted(ed.clone()) != sorted(want_ed.clone()) {
                         return Err(err("edges_directed", "differs from the model", format!("node {} {:?} got {:?} want {:?}", a, dir, ed, want_ed)));
@@ -287,6 +306,41 @@ where
     }
     fn check(&self, s: &Self::S) -> Result<(), StepErr> {
         self.battery(s)
+    }
+    fn has_check_new(&self) -> bool {
+        true
+    }
+    /// iterator protocol of the iterators MatrixGraph hands out + the mutable accessors on a rebuilt copy
+    fn check_new(&self, s: &Self::S) -> Result<(), StepErr> {
+        use petgraph::visit::{IntoEdgeReferences, IntoNodeIdentifiers, IntoNodeReferences};
+        use vh::iter_protocol;
+        let g = &s.g;
+        iter_protocol!("node_identifiers", g.node_identifiers(), |x: NodeIndex<Ix>| x.index())?;
+        iter_protocol!("node_references", g.node_references(), |(i, w): (NodeIndex<Ix>, &u8)| (i.index(), *w))?;
+        iter_protocol!("edge_references", g.edge_references(), |(a, b, w): (NodeIndex<Ix>, NodeIndex<Ix>, &E)| (a.index(), b.index(), w.un()))?;
+        for a in 0..self.max_ids {
+            iter_protocol!("neighbors", g.neighbors(ni(a)), |x: NodeIndex<Ix>| x.index())?;
+            iter_protocol!("edges", g.edges(ni(a)), |(a, b, w): (NodeIndex<Ix>, NodeIndex<Ix>, &E)| (a.index(), b.index(), w.un()))?;
+        }
+        // get_node_weight_mut / get_edge_weight_mut: Some exactly for live nodes / present edges (on a rebuilt copy)
+        let mut c: Mg<E, Ty, Null, Ix> = rebuild(s.cap, &s.hist);
+        for a in 0..self.max_ids {
+            let r = guarded(std::panic::AssertUnwindSafe(|| c.get_node_weight_mut(ni(a)).map(|w| *w)));
+            if r != Ok(s.m.nodes.get(&a).cloned()) {
+                return Err(err("get_node_weight_mut", "differs from the model (None for an id that is not live)", format!("{} got {:?}", a, r)));
+            }
+            if !s.m.nodes.contains_key(&a) {
+                continue;
+            }
+            for (&b, _) in &s.m.nodes {
+                let want = s.m.edges.get(&s.m.k(a, b)).cloned();
+                let r = guarded(std::panic::AssertUnwindSafe(|| c.get_edge_weight_mut(ni(a), ni(b)).map(|w| w.un())));
+                if r != Ok(want) {
+                    return Err(err("get_edge_weight_mut", "differs from the model (None for an absent edge)", format!("{} {} got {:?} want {:?}", a, b, r, want)));
+                }
+            }
+        }
+        Ok(())
     }
     fn ops(&self, s: &Self::S) -> Vec<Op> {
         let m = &s.m;
@@ -578,6 +632,87 @@ impl Part for Sweep {
     }
 }
 
+/// u8 node ids at the index limit: 255 nodes fit (ids 0..=254), then try_add_node reports NodeIxLimit and add_node panics
+/// as documented; nothing is disturbed by the refused calls; a removed id is handed out again.
+struct IxLimit;
+
+fn ix_limit_case<Ty: EdgeType, Null: Nullable<Wrapped = u8>>(acc: &mut Acc, cfg: &str) {
+    let directed = Ty::is_directed();
+    acc.evaluations += 1;
+    let r = guarded(|| -> Result<(), (String, String, String)> {
+        let mut g: MatrixGraph<u8, u8, RandomState, Ty, Null, u8> = MatrixGraph::with_capacity(0);
+        for i in 0..255usize {
+            let id = g.try_add_node(i as u8).map_err(|e| ("MatrixGraph::try_add_node".to_string(), "refuses a node although fewer than Ix::max nodes exist".to_string(), format!("node #{}: {:?}", i, e)))?;
+            if id.index() != i {
+                return Err(("MatrixGraph::try_add_node".into(), "must return an id that is not live".into(), format!("node #{} got id {}", i, id.index())));
+            }
+        }
+        g.add_edge(NodeIndex::new(254), NodeIndex::new(0), 1);
+        g.add_edge(NodeIndex::new(3), NodeIndex::new(254), 2);
+        let snapshot = |g: &MatrixGraph<u8, u8, RandomState, Ty, Null, u8>| -> (usize, usize, Vec<usize>, Vec<(usize, usize, u8)>) {
+            (g.node_count(), g.edge_count(), g.node_identifiers().map(|x| x.index()).collect(), sorted(g.edge_references().map(|(a, b, w)| (a.index(), b.index(), *w)).collect()))
+        };
+        let before = snapshot(&g);
+        if before.0 != 255 || before.1 != 2 || before.2 != (0..255).collect::<Vec<_>>() {
+            return Err(("node_count / node_identifiers".into(), "differ from the 255 nodes added".into(), format!("{:?}", (before.0, before.1))));
+        }
+        match g.try_add_node(0) {
+            Err(petgraph::matrix_graph::MatrixError::NodeIxLimit) => {}
+            other => return Err(("MatrixGraph::try_add_node".into(), "does not report NodeIxLimit at the maximum number of nodes for the index type".into(), format!("got {:?}", other.map(|x| x.index())))),
+        }
+        if snapshot(&g) != before {
+            return Err(("MatrixGraph::try_add_node".into(), "a refused call changed the graph".into(), String::new()));
+        }
+        // a removed id is handed out again and starts without incident edges
+        g.remove_node(NodeIndex::new(254));
+        let id = g.try_add_node(9).map_err(|e| ("MatrixGraph::try_add_node".to_string(), "refuses a node after a removal at the limit".to_string(), format!("{:?}", e)))?;
+        let s2 = snapshot(&g);
+        if id.index() != 254 || s2.0 != 255 || s2.1 != 0 || g.neighbors(id).count() != 0 || (directed && g.has_edge(NodeIndex::new(3), id)) {
+            return Err(("MatrixGraph::try_add_node".into(), "a reused id at the limit does not start without incident edges".into(), format!("id {} counts {:?}", id.index(), (s2.0, s2.1))));
+        }
+        // last (it may leave the graph in any state): add_node at the limit panics as documented
+        let r = guarded(std::panic::AssertUnwindSafe(|| g.add_node(0).index()));
+        if let Ok(id) = r {
+            return Err(("MatrixGraph::add_node".into(), "does not panic at the maximum number of nodes for the index type (documented)".into(), format!("returned id {} with 255 live nodes; node_count now {}", id, g.node_count())));
+        }
+        Ok(())
+    });
+    match r {
+        Ok(Ok(())) => {}
+        Ok(Err((call, symptom, detail))) => acc.viol(Viol { call, symptom, detail: format!("{}: {}", cfg, detail), replay: json!({"part": "index-limit", "note": cfg}) }),
+        Err(m) => acc.viol(Viol { call: "MatrixGraph at the index limit".into(), symptom: format!("panic: {}", vh::guard::panic_class(&m)), detail: format!("{}: {}", cfg, m), replay: json!({"part": "index-limit", "note": cfg}) }),
+    }
+}
+
+impl Part for IxLimit {
+    fn name(&self) -> String {
+        "index-limit".into()
+    }
+    fn run(&self, _args: &Args, acc: &mut Acc) {
+        let before = acc.evaluations;
+        ix_limit_case::<Directed, Option<u8>>(acc, "Directed/Option/u8");
+        ix_limit_case::<Undirected, Option<u8>>(acc, "Undirected/Option/u8");
+        ix_limit_case::<Directed, NotZero<u8>>(acc, "Directed/NotZero/u8");
+        ix_limit_case::<Undirected, NotZero<u8>>(acc, "Undirected/NotZero/u8");
+        let cases = acc.evaluations - before;
+        acc.nontrivial += cases;
+        acc.states += cases;
+        acc.transitions += cases * 260;
+        acc.replayed += cases;
+        let f = acc.fam("index-limit");
+        f.cases = cases;
+        f.nontrivial = cases;
+        f.exhaustive = true;
+        f.bounds = "u8 node ids: 255 nodes added one by one, then try_add_node (NodeIxLimit, nothing changed), add_node (documented panic), removal and reuse of the highest id; four configurations".into();
+    }
+    fn replay(&self, r: &Value) -> u64 {
+        println!("index limit case: {}", r["note"]);
+        let mut acc = Acc::default();
+        self.run(&vh::e2::parse_args(), &mut acc);
+        acc.viols.values().map(|x| x.0).sum()
+    }
+}
+
 fn main() {
     main_check(
         Spec {
@@ -603,6 +738,7 @@ fn main() {
                 v.push(mk::<i32, Undirected, NotZero<i32>, usize>("Undirected, NotZero<i32>, usize", 2, 3));
             }
             v.push(Box::new(Sweep { thorough: t }));
+            v.push(Box::new(IxLimit));
             v
         },
     );
